@@ -91,8 +91,8 @@ Inductive stmt :=
 with operands :=
 | OpAll
 | OpDefault
-| OpList (l : list operand)
-with operand :=
+| OpList (l : list opnd)
+with opnd :=
 | Target (k : target_kind) (n : nameref)
 | Zone (n : nameref) (a : rval) (b : option rval)
 | MatrixInline (n : nameref) (rows cols : span) (rows_first : bool)
@@ -109,7 +109,6 @@ with loop :=
 | LIn (srcs : list light_src) (x : string) (w : option loop_with)
 with macro_def :=
 | MLit (l : lit)
-| MNegLit (l : lit)
 | MTime (text : string) (p : tp)
 | MRef (m : string).
 
